@@ -1,2 +1,2 @@
 """import every profile module so that they register themselves"""
-from . import profiles  # noqa: F401
+from . import profiles, profiles2  # noqa: F401
